@@ -397,6 +397,10 @@ func (c *Cmd) mkArg(arg container.Container) {
 	arg.DefaultValue = values.DefaultValue(arg.Value)
 
 	arg.ValueSetFromEnv = values.SetFromEnv(arg.Value, arg.EnvVar)
+	if arg.ValueSetByUser != nil {
+		// like the value itself, the flag does not keep what the caller's variable held before
+		*arg.ValueSetByUser = false
+	}
 
 	c.args = append(c.args, &arg)
 	c.argsIdx[arg.Name] = &arg
